@@ -156,6 +156,129 @@ Section Theorems.
 End Theorems.
 
 (* ---------------------------------------------------------------------------------------------------------- *)
+(* The tree WITH the repair proposed for D19d (proposed_fixes/D19d.diff; [cfg_gt true]): in a numeric goal, an argument
+   that is a declared object / constant must conform to the parameter's type.  What the code still omits is only
+   that the arguments ARE declared ([goal_args_declared]); [cfg_gt false] is [cfg_fixed], the theorems above. *)
+Section Typed.
+  Variable num : string -> option float.
+  Variable dom : mdomain.
+  Hypothesis Hdom : dom_ok dom.
+  Hypothesis Hnum : num_ok num.
+  Local Notation v := (vocab_of dom).
+
+  Definition declared_name (objs : list (string * string)) (a : string) : bool :=
+    match type_of v objs a with Some _ => true | None => false end.
+
+  (* every argument of every fluent (declared function, right number of arguments) names an object or a constant *)
+  Fixpoint nexp_args_declared (objs : list (string * string)) (n : nexp) : bool :=
+    match n with
+    | Pddl.NNum _ => true
+    | Pddl.NFl f args =>
+        match lookup f (v_funcs v) with
+        | Some params => if Nat.eqb (List.length args) (List.length params) then forallb (declared_name objs) args else true
+        | None => true
+        end
+    | Pddl.NBin _ a b => nexp_args_declared objs a && nexp_args_declared objs b
+    end.
+
+  Definition goal_args_declared (sp : sproblem) : bool :=
+    forallb (fun g : cmpop * nexp * nexp => match g with (_, l, r) =>
+               nexp_args_declared (sp_objects sp) l && nexp_args_declared (sp_objects sp) r end) (sp_goal_num sp).
+
+  Lemma dmem_possible_declared objs a : dmem (possible dom objs) a = declared_name objs a.
+  Proof. unfold dmem, declared_name. rewrite (dget_possible dom Hdom). reflexivity. Qed.
+
+  Lemma typed_if_declared objs : forall args tys,
+    forallb (dmem (possible dom objs)) args = true ->
+    forall2b (fun a lt => is_sub_type (ptt dom) (ty_of dom objs a) lt) args tys = goal_types_ok dom objs args tys.
+  Proof.
+    unfold goal_types_ok. induction args as [|a ar IH]; intros [|t tr] H; cbn [forall2b]; try reflexivity.
+    cbn [forallb] in H. apply andb_true_iff in H. destruct H as [Ha Har]. rewrite (IH tr Har). f_equal.
+    unfold ty_of. unfold dmem in Ha. destruct (dget (possible dom objs) a); [reflexivity | discriminate].
+  Qed.
+
+  (* the spec's argument check = declared, and typed where declared *)
+  Lemma nexp_args_ok_split objs n :
+    nexp_args_ok dom objs n = nexp_args_declared objs n && tyd dom objs n.
+  Proof.
+    induction n as [x|f args|o a IHa b IHb]; cbn [nexp_args_ok nexp_args_declared tyd]; [reflexivity| |].
+    - simpl v_funcs. unfold signature, pydict, name in *.
+      match goal with |- context [@lookup ?V f ?d] => destruct (@lookup V f d) as [params|] end; [|reflexivity].
+      destruct (Nat.eqb (List.length args) (List.length params)) eqn:E; [|reflexivity].
+      apply Nat.eqb_eq in E. rewrite (args_ok_model dom Hdom objs args params E).
+      assert (Hd : forallb (dmem (possible dom objs)) args = forallb (declared_name objs) args).
+      { apply forallb_ext'. intros a. apply dmem_possible_declared. }
+      rewrite <- Hd. destruct (forallb (dmem (possible dom objs)) args) eqn:Ed; [|reflexivity].
+      rewrite (typed_if_declared objs args (dvalues params) Ed). reflexivity.
+    - rewrite IHa, IHb. btauto.
+  Qed.
+
+  Lemma goal_args_ok_split sp : goal_args_ok dom sp = goal_args_declared sp && goal_typed true dom sp.
+  Proof.
+    unfold goal_args_ok, goal_args_declared, goal_typed. cbn [negb orb].
+    induction (sp_goal_num sp) as [|[[c l] r] gs IH]; cbn [forallb]; [reflexivity|].
+    rewrite IH, !nexp_args_ok_split. btauto.
+  Qed.
+
+  (* the spec's well-formedness + no repeated argument in a numeric goal
+     = what the repaired code checks + the one thing it still omits *)
+  Theorem wf_split_typed sp :
+    wf_sproblem num v sp && goal_norepeat sp = wf_code_t true num dom sp && goal_args_declared sp.
+  Proof.
+    rewrite (wf_split num dom sp). unfold wf_code_t. rewrite goal_args_ok_split. btauto.
+  Qed.
+
+  Definition accepted_t (e : sexp) : Prop := exists pb, parse_problem (cfg_gt true) num dom e = Ok pb.
+
+  Lemma accepted_iff_code_typed e sp : read_problem num e = Some sp -> (accepted_t e <-> wf_code_t true num dom sp = true).
+  Proof.
+    intros Hr. pose proof (parse_problem_spec_t true num dom Hdom Hnum e sp Hr) as H. unfold accepted_t.
+    destruct (wf_code_t true num dom sp); simpl in H.
+    - split; [reflexivity | intros _; eexists; exact H].
+    - destruct H as [k H]. split; [intros [pb Hpb]; rewrite H in Hpb; discriminate | discriminate].
+  Qed.
+
+  Lemma C05_accepts_typed_lemma e sp :
+    read_problem num e = Some sp -> goal_norepeat sp = true -> wf_sproblem num v sp = true -> accepted_t e.
+  Proof.
+    intros Hr Hn Hwf. apply (accepted_iff_code_typed e sp Hr).
+    pose proof (wf_split_typed sp) as H. rewrite Hwf, Hn in H. simpl in H. symmetry in H.
+    apply andb_true_iff in H. tauto.
+  Qed.
+
+  Lemma C05_iff_typed_lemma e sp :
+    read_problem num e = Some sp -> goal_args_declared sp = true -> goal_norepeat sp = true ->
+    (accepted_t e <-> wf_sproblem num v sp = true).
+  Proof.
+    intros Hr Hg Hn. pose proof (wf_split_typed sp) as H. rewrite Hg, Hn, !andb_true_r in H. rewrite H.
+    apply accepted_iff_code_typed. exact Hr.
+  Qed.
+
+  (* every ill-formed text whose numeric-goal arguments are all declared names is rejected: in particular every
+     ill-TYPED argument of a numeric goal (the half of D19d that the repair closes) *)
+  Lemma C05_rejects_typed_lemma e sp :
+    read_problem num e = Some sp -> goal_args_declared sp = true -> wf_sproblem num v sp = false ->
+    exists k, parse_problem (cfg_gt true) num dom e = Err k.
+  Proof.
+    intros Hr Hg Hwf. pose proof (wf_split_typed sp) as Hs. rewrite Hg, Hwf, andb_true_r in Hs. simpl in Hs.
+    pose proof (parse_problem_spec_t true num dom Hdom Hnum e sp Hr) as H. rewrite <- Hs in H. exact H.
+  Qed.
+
+  Lemma C05_faithful_typed_lemma e sp pb :
+    read_problem num e = Some sp -> safe_repeats sp = true ->
+    parse_problem (cfg_gt true) num dom e = Ok pb ->
+    pdump_equiv (dump_problem pb) (spec_dump num sp) = true.
+  Proof.
+    intros Hr Hs Hp. pose proof (parse_problem_spec_t true num dom Hdom Hnum e sp Hr) as H.
+    unfold wf_code_t in H. destruct (wf_code num dom sp) eqn:Ew; cbn [andb] in H.
+    - destruct (goal_typed true dom sp); simpl in H.
+      + rewrite H in Hp. injection Hp as <-. apply built_faithful_safe; assumption.
+      + destruct H as [k H]. rewrite H in Hp. discriminate.
+    - destruct H as [k H]. rewrite H in Hp. discriminate.
+  Qed.
+End Typed.
+
+(* ---------------------------------------------------------------------------------------------------------- *)
 (* The full statements *)
 Definition C05_iff_statement (cfg : pcfg) : Prop :=
   forall num dom e sp, dom_ok dom -> num_ok num -> read_problem num e = Some sp ->
@@ -228,6 +351,33 @@ Proof.
   specialize (H ex_num ex_dom d19d_problem sp ex_dom_ok ex_num_ok Er).
   assert (Hacc : exists pb, parse_problem cfg_fixed ex_num ex_dom d19d_problem = Ok pb) by (eexists; vm_compute; reflexivity).
   apply H in Hacc. vm_compute in Er. injection Er as <-. vm_compute in Hacc. discriminate.
+Qed.
+
+(* ... and still does with the repair proposed for D19d, which closes the ill-TYPED half only *)
+Lemma C05_iff_typed_refuted_lemma : ~ C05_iff_statement (cfg_gt true).
+Proof.
+  intros H.
+  destruct (read_problem ex_num d19d_problem) as [sp|] eqn:Er; [|vm_compute in Er; discriminate].
+  specialize (H ex_num ex_dom d19d_problem sp ex_dom_ok ex_num_ok Er).
+  assert (Hacc : exists pb, parse_problem (cfg_gt true) ex_num ex_dom d19d_problem = Ok pb) by (eexists; vm_compute; reflexivity).
+  apply H in Hacc. vm_compute in Er. injection Er as <-. vm_compute in Hacc. discriminate.
+Qed.
+
+(* a numeric goal over a DECLARED object of a foreign type (o2 : t2, f0 takes a t0): accepted by the current tree,
+   rejected with the repair; the hypotheses of C05_rejects_typed hold for it *)
+Definition d19d_typed_problem : sexp := tok
+  "(define (problem pr) (:domain dom) (:objects o0 - t1 o2 - t2) (:init) (:goal (and (= (f0 o2) 1) (>= (f0 o0) 2))))".
+
+Example C05_d19d_typed_example :
+  is_ok (parse_problem cfg_fixed ex_num ex_dom d19d_typed_problem) = true /\
+  is_ok (parse_problem (cfg_gt true) ex_num ex_dom d19d_typed_problem) = false /\
+  is_ok (parse_problem (cfg_gt true) ex_num ex_dom d19d_problem) = true /\
+  is_ok (parse_problem (cfg_gt true) ex_num ex_dom ex_problem) = true /\
+  exists sp, read_problem ex_num d19d_typed_problem = Some sp /\ goal_args_declared ex_dom sp = true /\
+             goal_args_ok ex_dom sp = false /\ wf_sproblem ex_num (vocab_of ex_dom) sp = false.
+Proof.
+  split; [vm_compute; reflexivity|]. split; [vm_compute; reflexivity|]. split; [vm_compute; reflexivity|].
+  split; [vm_compute; reflexivity|]. eexists. split; [vm_compute; reflexivity|]. vm_compute. repeat split; reflexivity.
 Qed.
 
 (* D07: a fluent with a partially repeated argument list is stored with its arguments reordered *)
